@@ -1,9 +1,9 @@
 (* C19 proofs: epoch arithmetic of customfuncs/datetime.go is exact and invertible for every
    instant of years 1..9999 (no int64 wrap-around), and parseDateTime's zone logic keeps the
    instant (zone in the input) or the wall-clock reading (no zone). *)
-From Coq Require Import ZArith List Bool Lia.
+From Coq Require Import ZArith List Bool Lia String.
 Import ListNotations.
-From OV Require Import Model.Time.
+From OV Require Import Model.Int64 Gen.DateTime Model.Time.
 Local Open Scope Z_scope.
 
 (* ---- int64 ------------------------------------------------------------------------------------- *)
@@ -40,7 +40,7 @@ Lemma epoch_millis_exact t : in_years_1_9999 t ->
 Proof.
   intros [[Hlo Hhi] Hns]. unfold instant_ok in Hns. unfold MIN_SEC, MAX_SEC in *.
   pose proof (nsec_ms_bounds _ Hns) as Hm.
-  unfold to_epoch, add64, mul64, quot64.
+  unfold to_epoch, to_epoch_expr, add64, mul64, quot64.
   rewrite Z.quot_div_nonneg by (unfold MS_NS, NS in *; lia).
   rewrite (wrap64_id (sec t * 1000)) by (int64_const; lia).
   rewrite (wrap64_id (nsec t / MS_NS)) by (int64_const; lia).
@@ -122,7 +122,7 @@ Proof.
   pose proof (Z.mod_pos_bound n 1000 ltac:(lia)) as B2.
   pose proof (Z.div_mod n 1000 ltac:(lia)) as E2.
   assert (Hq : -62135596800 <= n / 1000 <= 253402300799) by lia.
-  unfold from_epoch, quot64, rem64, mul64, MS_NS.
+  unfold from_epoch, from_epoch_expr, quot64, rem64, mul64, MS_NS.
   destruct (quot_rem_floor n) as [(Hlt & Eq & Er) | (Hlt & Eq & Er & Hpos)]; rewrite Eq, Er.
   - rewrite (wrap64_id (n / 1000)) by (int64_const; lia).
     rewrite (wrap64_id (n mod 1000 * 1000000)) by (int64_const; lia).
@@ -292,6 +292,21 @@ Section ZoneProofs.
       pose proof (Z.rem_le (- off) 60 Hn ltac:(lia)) as Hl. rewrite Z.rem_opp_l in Hl by lia. lia.
   Qed.
 
+  (* ---- parseDateTime (transcribed over the steps extracted from the source) is the decision table ---- *)
+  Lemma parse_date_time_table t h fromTZ toTZ :
+    parse_date_time (POk t h) fromTZ toTZ = interp off_of_instant off_of_wall t (decide h fromTZ toTZ).
+  Proof. destruct t as [s n l]; destruct h, fromTZ, toTZ; reflexivity. Qed.
+
+  (* the instant read back from the text is the input instant exactly when the offset is a whole
+     number of minutes: minute_aligned is the failing class of F23, no more and no less *)
+  Lemma rfc3339_instant_iff t :
+    obs_instant (rfc3339 t true) = Some (g_sec t) <-> minute_aligned (off_at (g_loc t) (g_sec t)).
+  Proof.
+    rewrite rfc3339_instant. unfold minute_aligned. split.
+    - intro H. injection H as H1. lia.
+    - intro H. rewrite H. f_equal. lia.
+  Qed.
+
   (* ---- the four functions ---- *)
   Notation date_time_to_rfc3339 := (date_time_to_rfc3339 off_of_instant off_of_wall).
   Notation date_time_layout_to_rfc3339 := (date_time_layout_to_rfc3339 off_of_instant off_of_wall).
@@ -336,6 +351,43 @@ Section ZoneProofs.
     - unfold Time.date_time_to_rfc3339. rewrite (tz_logic_instant t fromTZ toTZ Hto).
       f_equal. apply (rfc3339_text_exact (mkG (g_sec t) (g_nsec t) (loc_after toTZ (g_loc t)))).
     - split; [simpl; f_equal; lia|]. apply printed_offset_props.
+  Qed.
+
+  Notation interp := (interp off_of_instant off_of_wall).
+
+  (* dateTimeLayoutToRFC3339 with a layout: layoutTZ alone decides whether the parsed reading
+     carries a zone - whatever the parser itself found in the text *)
+  Lemma layout_table t h b fromTZ toTZ :
+    date_time_layout_to_rfc3339 (Some (POk t h)) false (LtzBool b) fromTZ toTZ
+    = match interp t (decide b fromTZ toTZ) with
+      | None => RError
+      | Some (t', h') => RVal (rfc3339 t' h')
+      end.
+  Proof.
+    unfold Time.date_time_layout_to_rfc3339. cbn [negb]. rewrite parse_date_time_table. reflexivity.
+  Qed.
+
+  Lemma layout_table_no_flag t h fromTZ toTZ :
+    date_time_layout_to_rfc3339 (Some (POk t h)) false LtzEmpty fromTZ toTZ
+    = date_time_layout_to_rfc3339 (Some (POk t h)) false (LtzBool false) fromTZ toTZ.
+  Proof. reflexivity. Qed.
+
+  Lemma smart_table t h fromTZ toTZ :
+    date_time_to_rfc3339 (Some (POk t h)) fromTZ toTZ
+    = match interp t (decide h fromTZ toTZ) with
+      | None => RError
+      | Some (t', h') => RVal (rfc3339 t' h')
+      end.
+  Proof. unfold Time.date_time_to_rfc3339. rewrite parse_date_time_table. reflexivity. Qed.
+
+  Lemma to_rfc3339_instant_iff t fromTZ toTZ : tz_ok toTZ ->
+    let l := loc_after toTZ (g_loc t) in
+    forall o, date_time_to_rfc3339 (Some (POk t true)) fromTZ toTZ = RVal o ->
+      (obs_instant o = Some (g_sec t) <-> minute_aligned (off_at l (g_sec t))).
+  Proof.
+    intros Hto l o H. unfold Time.date_time_to_rfc3339 in H.
+    rewrite (tz_logic_instant t fromTZ toTZ Hto) in H. inversion H as [H1]. clear H H1.
+    apply (rfc3339_instant_iff (mkG (g_sec t) (g_nsec t) l)).
   Qed.
 
   Lemma to_rfc3339_no_zone t :
@@ -443,5 +495,25 @@ Proof.
   rewrite IH by (intros ig' r' Hin; apply (H ig' r'); right; exact Hin).
   destruct (H ig r (or_introl eq_refl)) as [-> | Hr]; destruct r as [[]| |]; try reflexivity.
   contradiction.
+Qed.
+
+(* ---- facts read from the source by the extractor (Gen/DateTime.v) ------------------------------ *)
+Lemma extracted_units :
+  unit_of_string "SECOND"%string = Some USecond /\ unit_of_string "MILLISECOND"%string = Some UMillisecond
+  /\ unit_of_string ""%string = None /\ unit_of_string "second"%string = None /\ unit_of_string "MINUTE"%string = None
+  /\ epoch_default_zone = "UTC"%string.
+Proof. repeat split; reflexivity. Qed.
+
+Lemma unit_of_string_total s :
+  unit_of_string s = Some USecond /\ s = "SECOND"%string
+  \/ unit_of_string s = Some UMillisecond /\ s = "MILLISECOND"%string
+  \/ unit_of_string s = None.
+Proof.
+  unfold unit_of_string.
+  destruct (String.eqb s "MILLISECOND"%string) eqn:E1.
+  - right; left. apply String.eqb_eq in E1. split; [reflexivity | exact E1].
+  - destruct (String.eqb s "SECOND"%string) eqn:E2.
+    + left. apply String.eqb_eq in E2. split; [reflexivity | exact E2].
+    + right; right. reflexivity.
 Qed.
 
